@@ -162,11 +162,7 @@ func Catalogue(env *world.Env) []CatEntry {
 		{"ClaimDeveloperRewards/delivery-owner-in-another-shard", uni.Call(A0, uni.U1, vmcommon.BuiltInFunctionClaimDeveloperRewards)},
 		{"ClaimDeveloperRewards/delivery-contract-owner-in-another-shard", withType(uni.Call(S0, uni.V1, vmcommon.BuiltInFunctionClaimDeveloperRewards), vmcommon.AsynchronousCall)},
 		{"ChangeOwnerAddress/delivery-contract-owner-in-another-shard", withType(uni.Call(S0, uni.V1, vmcommon.BuiltInFunctionChangeOwnerAddress, B0), vmcommon.AsynchronousCall)}} {
-		if nw, legs := env.Step(base, fnArgs.act); len(legs) > 0 && legs[0].OK() && len(nw.Inflight) == 1 {
-			if _, dl := env.Step(nw, uni.Deliver(0)); len(dl) > 0 && dl[0].OK() {
-				add(fnArgs.name, nw, uni.Deliver(0))
-			}
-		}
+		delivery(fnArgs.name, base, fnArgs.act)
 	}
 	add("ClaimDeveloperRewards/local", base, uni.Call(A0, S0, vmcommon.BuiltInFunctionClaimDeveloperRewards))
 	add("ClaimDeveloperRewards/async", base, withType(uni.Call(A0, S0, vmcommon.BuiltInFunctionClaimDeveloperRewards), vmcommon.AsynchronousCall))
